@@ -167,6 +167,7 @@ def replay(ctx, path):
     mm = json.loads(txt)
     beh = mm.get("beh") or {}
     if "walk" in beh:
+        beh["walk"]["lods"] = beh.get("lods")
         test, inp, stage = "TestVerifC25Paging", [beh["walk"]], "paging"
     elif "lods" in beh and "st" in beh:
         beh.pop("exp", None)
